@@ -60,7 +60,10 @@ def corruptions(ex, op, payload):
             # the declared type of the position is the one of the type the field was selected ON (an interface
             # may declare `label: String` while the runtime object refines it to `String!`)
             fd = schema.field_def(parents.get(id(nodes[0])) or rt, nodes[0].name) or schema.field_def(rt, nodes[0].name)
-            walk_val(val.get(key), fd.type, gql.merged_subselection(nodes), keys + [key], rpath + "/" + key, in_list=False)
+            t = fd.type
+            if t[0] == "NN" and all(n.directives for n in nodes):
+                t = t[1]   # a field the server may leave out (@skip / @include) is not a non-null position of the response
+            walk_val(val.get(key), t, gql.merged_subselection(nodes), keys + [key], rpath + "/" + key, in_list=False)
 
     def walk_val(v, t, sel, keys, rpath, in_list):
         nonnull = t[0] == "NN"
